@@ -63,4 +63,38 @@ class ChainProc(plumpy.WorkChain):
         self.ctx.seen = getattr(self.ctx, 'seen', []) + [self.ctx.n]
 
 
-CLASSES = (CounterProc, RefProc, ChainProc)
+class TodoProc(plumpy.Process):
+    """an input value (a list inside the frozen inputs mapping) consumed in place, one item per step"""
+
+    @classmethod
+    def define(cls, spec):
+        super().define(spec)
+        spec.inputs.dynamic = True
+
+    def __init__(self, *args, **kwargs):
+        kwargs.setdefault('inputs', {'todo': list('abcdefghijklmnopqrstuvwxyz')})
+        super().__init__(*args, **kwargs)
+
+    def run(self):
+        if self.inputs.todo:
+            self.inputs.todo.pop(0)
+        return process_states.Continue(self.run)
+
+
+CLASSES = (CounterProc, RefProc, ChainProc, TodoProc)
+
+
+def _failing_save(cls):
+    """every class can be told to fail its next save (a member that cannot be saved at that moment)"""
+    orig = cls.save_instance_state
+
+    def save_instance_state(self, out_state, save_context):
+        if self.__dict__.pop('_fail_save', False):
+            raise RuntimeError('this state cannot be saved')
+        orig(self, out_state, save_context)
+    cls.save_instance_state = save_instance_state
+    return cls
+
+
+for _c in CLASSES:
+    _failing_save(_c)
